@@ -357,6 +357,8 @@ COMMON = [
     "tools/gen_netconsts.py (regex translator) extracts maxBuffLen, the MsgType constants, the shouldHaveTopic table and the syntactic "
     "flag 'onTimeout contains a panic call' from net/net.go on every run",
     "TLS 1.3 (crypto/tls), encoding/asn1, encoding/pem, crypto/x509, crypto/ecdsa, SHA-256, sockets and the Go scheduler are not modelled",
+    "the case catalogue, mutation positions, payloads and traffic are derived from VERIF_SEED; certificates, TLS sessions and ECDSA "
+    "signatures are fresh on every run (crypto/rand), so byte strings differ between runs while classes and verdicts do not",
 ]
 ASSUME = {
     "C16": COMMON + [
